@@ -9,35 +9,26 @@ open PromVerif.Py PromVerif.Model PromVerif.Model.Escape PromVerif.Model.Validat
 open PromVerif.Generated.Expo PromVerif.Generated.Validation
 open PromVerif.Spec.LineGrammar hiding Str
 
-/-- no label name is an F2 name -/
-def labelsOK (ls : List (Str × Str)) : Bool := ls.all (fun kv => !f2Name labelNameRe kv.1)
+/-- hypothesis on one sample for the text format: its value is a number token (it is `repr(float(v))`).
+Nothing is assumed about names, label names or label values. -/
+def sampleOKText (s : Sample) : Bool := floatTok s.value
 
-/-- hypotheses on one sample for the text format: its name and label names are not F2 names, its value is a number -/
-def sampleOKText (s : Sample) : Bool :=
-  !f2Name metricNameRe s.name && labelsOK s.labels && floatTok s.value
-
-/-- a non-empty, sorted, comma-joined label list -/
-theorem run_sortedLabels (om : Bool) (item : Str × Str → Str)
-    (hitem : ∀ f kv, f2Name labelNameRe kv.1 = false → run om (.lb false f) (item kv) = .qe .lval)
-    (ls : List (Str × Str)) (hne : ls ≠ []) (hok : labelsOK ls = true) (f : Bool) :
-    run om (.lb false f) (joinStr [','] ((sortByKey ls).map item)) = .qe .lval := by
+/-- a non-empty, sorted, comma-joined label list (sample labels `ex = false`, exemplar labels `ex = true`) -/
+theorem run_sortedLabels (om ex : Bool) (item : Str × Str → Str)
+    (hitem : ∀ f kv, run om (.lb ex f) (item kv) = .qe (if ex then .exval else .lval))
+    (ls : List (Str × Str)) (hne : ls ≠ []) (f : Bool) :
+    run om (.lb ex f) (joinStr [','] ((sortByKey ls).map item)) = .qe (if ex then .exval else .lval) := by
   have hs := sortByKey_ne_nil ls hne
   cases hsl : sortByKey ls with
   | nil => exact absurd hsl hs
-  | cons kv l =>
-    have hall : ∀ x ∈ kv :: l, f2Name labelNameRe x.1 = false := by
-      intro x hx
-      have : x ∈ ls := (mem_sortByKey x ls).mp (by rw [hsl]; exact hx)
-      simp only [labelsOK, List.all_eq_true] at hok
-      simpa using hok x this
-    exact run_labelList om f item hitem kv l hall
+  | cons kv l => exact run_labelList om ex f item hitem kv l
 
-theorem text_labelItem (om f : Bool) (kv : Str × Str) (h : f2Name labelNameRe kv.1 = false) :
-    run om (.lb false f) (TextExpo.labelItem kv) = .qe .lval := run_labelItem om f kv.1 kv.2 h
+theorem text_labelItem (om f : Bool) (kv : Str × Str) :
+    run om (.lb false f) (TextExpo.labelItem kv) = .qe .lval := run_labelItem om false f kv.1 kv.2
 
-theorem text_labelStr_run (om f : Bool) (ls : List (Str × Str)) (hne : ls ≠ []) (hok : labelsOK ls = true) :
+theorem text_labelStr_run (om f : Bool) (ls : List (Str × Str)) (hne : ls ≠ []) :
     run om (.lb false f) (TextExpo.labelStr ls) = .qe .lval :=
-  run_sortedLabels om TextExpo.labelItem (text_labelItem om) ls hne hok f
+  run_sortedLabels om false TextExpo.labelItem (text_labelItem om) ls hne f
 
 theorem labelItem_ne_nil (kv : Str × Str) : TextExpo.labelItem kv ≠ [] := by
   simp [TextExpo.labelItem]
@@ -81,15 +72,14 @@ theorem e_s0_qname (om : Bool) (n r : Str) :
 
 theorem text_sampleLine_ok (s : Sample) (h : sampleOKText s = true) :
     ∃ b, TextExpo.sampleLine s = b ++ ['\n'] ∧ sampleLine false b = true := by
-  simp only [sampleOKText, Bool.and_eq_true, Bool.not_eq_true'] at h
-  obtain ⟨⟨hn, hl⟩, hv⟩ := h
+  have hv : floatTok s.value = true := h
   have hgo := run_value false _ (go_numTok _ hv)
   unfold TextExpo.sampleLine
   dsimp only
   split
   · next hleg =>
     refine ⟨_, rfl, ?_⟩
-    have hname := run_bareMetric false s.name (legacy_metric_bare s.name hn hleg)
+    have hname := run_bareMetric false s.name (legacy_metric_bare s.name hleg)
     unfold sampleLine
     cases hls : s.labels with
     | nil =>
@@ -98,7 +88,7 @@ theorem text_sampleLine_ok (s : Sample) (h : sampleOKText s = true) :
           run_append, hname, hgo, e_name_sp, run_text_ts, accepting]
     | cons kv l =>
       have he := isEmpty_false_of_ne_nil _ (text_labelStr_ne_nil (kv :: l) (by simp))
-      have hlab := text_labelStr_run false true (kv :: l) (by simp) (by rw [← hls]; exact hl)
+      have hlab := text_labelStr_run false true (kv :: l) (by simp)
       cases hts : s.ts <;>
         simp only [List.isEmpty_cons, he, Bool.false_eq_true, if_false, List.append_assoc, List.cons_append,
           List.nil_append, List.append_nil, run_append, hname, hgo, hlab, e_name_brace, e_lval_close, e_al_sp,
@@ -115,18 +105,18 @@ theorem text_sampleLine_ok (s : Sample) (h : sampleOKText s = true) :
           List.append_nil, run_append, hgo, e_s0_qname, e_mname_close, e_al_sp, run_text_ts, accepting]
     | cons kv l =>
       have he := isEmpty_false_of_ne_nil _ (text_labelStr_ne_nil (kv :: l) (by simp))
-      have hlab := text_labelStr_run false false (kv :: l) (by simp) (by rw [← hls]; exact hl)
+      have hlab := text_labelStr_run false false (kv :: l) (by simp)
       cases hts : s.ts <;>
         simp only [hq, List.isEmpty_cons, he, Bool.false_eq_true, if_false, List.append_assoc, List.cons_append,
           List.nil_append, List.append_nil, run_append, hgo, hlab, e_s0_qname, e_mname_comma_text,
           e_lval_close, e_al_sp, run_text_ts, accepting]
 
 -- metadata lines ----------------------------------------------------------------------------------------------
-theorem classify_help (om : Bool) (n t : Str) (hn : f2Name metricNameRe n = false) (ht : '\n' ∉ t) :
+theorem classify_help (om : Bool) (n t : Str) (ht : '\n' ∉ t) :
     classify om ("# HELP ".toList ++ (escapeMetricName n ++ ' ' :: t)) = some .help := by
   unfold classify
   rw [stripPrefix_append]
-  simp only [metaName_escapeMetricName n t hn]
+  simp only [metaName_escapeMetricName n t]
   simp [ht]
 
 theorem stripPrefix_help_type (x : Str) : stripPrefix "# HELP ".toList ("# TYPE ".toList ++ x) = none := by
@@ -138,19 +128,19 @@ theorem stripPrefix_help_unit (x : Str) : stripPrefix "# HELP ".toList ("# UNIT 
 theorem stripPrefix_type_unit (x : Str) : stripPrefix "# TYPE ".toList ("# UNIT ".toList ++ x) = none := by
   simp [stripPrefix]
 
-theorem classify_type (om : Bool) (n t : Str) (hn : f2Name metricNameRe n = false)
+theorem classify_type (om : Bool) (n t : Str)
     (ht : (if om then typesOM else typesText).contains t = true) :
     classify om ("# TYPE ".toList ++ (escapeMetricName n ++ ' ' :: t)) = some .type := by
   unfold classify
   rw [stripPrefix_help_type, stripPrefix_append]
-  simp only [metaName_escapeMetricName n t hn]
+  simp only [metaName_escapeMetricName n t]
   rw [if_pos ht]
 
-theorem classify_unit (n u : Str) (hn : f2Name metricNameRe n = false) (hu : unitTok u = true) :
+theorem classify_unit (n u : Str) (hu : unitTok u = true) :
     classify true ("# UNIT ".toList ++ (escapeMetricName n ++ ' ' :: u)) = some .unit := by
   unfold classify
   rw [stripPrefix_help_unit, stripPrefix_type_unit]
-  simp only [if_true, stripPrefix_append, metaName_escapeMetricName n u hn]
+  simp only [if_true, stripPrefix_append, metaName_escapeMetricName n u]
   simp [hu]
 
 theorem classify_eof : classify true "# EOF".toList = some .eof := by decide
@@ -166,41 +156,25 @@ theorem LineOf.kind {om : Bool} {k : Kind} {l : Str} (h : LineOf om k l) : class
   obtain ⟨b, rfl, hb⟩ := h
   simpa using hb
 
-theorem text_helpLine_ok (n doc : Str) (tr : Bool) (hn : f2Name metricNameRe n = false) :
+theorem text_helpLine_ok (n doc : Str) (tr : Bool) :
     LineOf false .help (TextExpo.helpLine n doc tr) := by
   refine ⟨_, rfl, ?_⟩
   simp only [List.append_assoc, List.cons_append, List.nil_append]
-  apply classify_help false n _ hn
+  apply classify_help false n _
   cases tr
   · simpa using escapeHelp_noLF doc
   · simpa [escapeHelpTrailing_eq] using escapeHelp_noLF doc
 
-theorem text_typeLine_ok (n t : Str) (hn : f2Name metricNameRe n = false) (ht : typesText.contains t = true) :
+theorem text_typeLine_ok (n t : Str) (ht : typesText.contains t = true) :
     LineOf false .type (TextExpo.typeLine n t) := by
   refine ⟨_, rfl, ?_⟩
   simp only [List.append_assoc, List.cons_append, List.nil_append]
-  exact classify_type false n t hn (by simpa using ht)
+  exact classify_type false n t (by simpa using ht)
 
 theorem text_sampleLine_lineOf (s : Sample) (h : sampleOKText s = true) :
     LineOf false .sample (TextExpo.sampleLine s) := by
   obtain ⟨b, hb, hs⟩ := text_sampleLine_ok s h
   exact ⟨b, hb, classify_sample false b hs⟩
-
--- names with a fixed suffix are never F2 names -------------------------------------------------------------------
-theorem f2Name_append (re : NameRe) (n suf : Str) (h1 : suf ≠ []) (h2 : suf.getLast? ≠ some '\n') :
-    f2Name re (n ++ suf) = false := by
-  unfold f2Name
-  have : (n ++ suf).getLast? = suf.getLast? := by
-    rw [List.getLast?_append]
-    cases hs : suf.getLast? with
-    | none => simp [List.getLast?_eq_none_iff] at hs; exact absurd hs h1
-    | some c => rfl
-  rw [this]
-  split
-  · next h => exact absurd h h2
-  · rfl
-
-theorem trailing_suffix_ok : ∀ suf ∈ trailingSuffixes, suf ≠ [] ∧ suf.getLast? ≠ some '\n' := by decide
 
 /-- every type in `METRIC_TYPES` is written as one of the text format's five type words, and is an OpenMetrics type -/
 theorem munge_type_ok : ∀ t ∈ PromVerif.Generated.Ctor.metricTypes,
